@@ -6,7 +6,7 @@
 // case lines (all numbers integers unless stated):
 //   G ctype(f|d) gamma(hex double) n dim maxbatch | x (n*dim) | flips (pairs i j)
 //   X n dim maxbatch npairs | x (n*dim) | pairs (s g)* | flips (pairs i j over 0..npairs-1)
-//   Y n dim cacheRows | x (n*dim)
+//   Y n dim cacheRows extraBytes | x (n*dim)        cache size = cacheRows*n*sizeof(double) + extraBytes
 // output: one line per case, fields  NAME=v,v,...  (hex doubles, row-major n x n) | EXC msg
 #include <shark/Models/Kernels/LinearKernel.h>   // DifferenceKernelMatrix.h relies on AbstractKernelFunction being declared already
 #include <shark/LinAlg/GaussianKernelMatrix.h>
@@ -101,21 +101,21 @@ int main(int argc, char** argv) {
 				RealMatrix full(np, np, -7.0); direct.matrix(full);
 				o << " M="; for (std::size_t i = 0; i != np; ++i) for (std::size_t j = 0; j != np; ++j) { if (i + j) o << ","; o << hx(full(i, j)); }
 			} else if (t[0] == "Y") {
-				std::size_t n = std::stoul(t[1]), dim = std::stoul(t[2]), rows = std::stoul(t[3]), p = 5;
+				std::size_t n = std::stoul(t[1]), dim = std::stoul(t[2]), rows = std::stoul(t[3]), p = 6; long extra = std::stol(t[4]);
 				std::vector<RealVector> pts(n, RealVector(dim));
 				for (std::size_t i = 0; i != n; ++i) for (std::size_t d = 0; d != dim; ++d) pts[i](d) = (double)std::stol(t[p++]);
 				Data<RealVector> data = createDataFromRange(pts, 3);
 				LinearKernel<RealVector> k;
 				typedef KernelMatrix<RealVector, double> KM;
 				KM base(k, data);
-				PartlyPrecomputedMatrix<KM> pp(&base, rows * n * sizeof(double));
+				PartlyPrecomputedMatrix<KM> pp(&base, (std::size_t)((long)(rows * n * sizeof(double)) + extra));   // cache size in BYTES, not a multiple of the row size in general
 				o << "Y"; byEntry(o, "E", pp, n);
 				o << " R=";
 				for (std::size_t i = 0; i != n; ++i) {
 					blas::vector<double> st(n, -7.0); pp.row(i, st);
 					for (std::size_t j = 0; j != n; ++j) { if (i + j) o << ","; o << hx(st(j)); }
 				}
-				o << " K=" << (pp.isCached(0) ? 1 : 0) << "," << (rows < n ? (pp.isCached(n - 1) ? 1 : 0) : 1);
+				o << " K=" << (pp.isCached(0) ? 1 : 0) << "," << (pp.isCached(n - 1) ? 1 : 0);   // (getMaxCacheSize() and size() do not compile: they call m_cachedMatrix.size(), which blas::matrix does not have)
 			} else o << "ERR unknown";
 			std::cout << o.str() << std::endl;
 		}
